@@ -90,7 +90,8 @@ theorem bind_AB (I : Interp D) (c : Ctx) (k : Classes c) (Kfin : St D) {sA sB sK
     · exact k.ncloc_of_sh h
   have := AB_eff c k (freshEff i (I.idx j)) (freshEff i (I.idx j)) hP hL.hAB hL.eAB rfl rfl
     (by simp only [UpdAB, freshEff, refSimAB]; exact ⟨trivial, hi, trivial, trivial, fun _ => trivial⟩)
-    (by intro l d h; simp only [freshEff, Option.some.injEq, Prod.mk.injEq] at h; rw [← h.1]; exact hncl) hA hB
+    (by intro l d h; simp only [freshEff, Option.some.injEq, Prod.mk.injEq] at h; rw [← h.1]; exact hncl)
+    (by intro x r h hcl; simp only [freshEff, Option.some.injEq, Prod.mk.injEq] at h; rw [← h.2] at hcl; rw [hncl] at hcl; cases hcl) hA hB
   rw [← bindIdx_eq I i j sA hA, ← bindIdx_eq I i j sB hB] at this
   have hok : (bindIdx I i j sA).err = none := by rw [bindIdx_ok I i j sA hA]; simpa using hA
   exact ⟨this.1, this.2.1, (this.2.2 hok).1, (this.2.2 hok).2, bindIdx_origin I c i j sA hO hL.oA,
